@@ -6,6 +6,8 @@ package main
 import (
 	"fmt"
 	"math"
+	"strings"
+	"sync/atomic"
 
 	"github.com/unixpickle/model3d/model2d"
 	"github.com/unixpickle/model3d/model3d"
@@ -184,7 +186,10 @@ func triDist(p model3d.Coord3D, t [3]model3d.Coord3D) (float64, model3d.Coord3D)
 	for k := 0; k < 3; k++ {
 		e0, e1 := t[k], t[(k+1)%3]
 		ab := e1.Sub(e0)
-		tt := math.Max(0, math.Min(1, p.Sub(e0).Dot(ab)/ab.Dot(ab)))
+		tt := 0.0
+		if ab.Dot(ab) > 0 {
+			tt = math.Max(0, math.Min(1, p.Sub(e0).Dot(ab)/ab.Dot(ab)))
+		}
 		q := e0.Add(ab.Scale(tt))
 		if d := p.Dist(q); d < best {
 			best, bp = d, q
@@ -311,6 +316,46 @@ func checkSingleTriangles(r *ev.Run, n int) {
 		r.NontrivialAdd(1)
 	})
 	r.Set("single_triangle_meshes", len(ts))
+	// the primitive itself, including triangles without area (a repeated corner, three corners on a line, one point):
+	// Dist and Closest against the same independent distance, which for those is the distance to the segment or point
+	var all []tri
+	for a := range grid {
+		for b := range grid {
+			for c := range grid {
+				if a%5 == 0 || (a == b || b == c || a == c) || grid[b].Sub(grid[a]).Cross(grid[c].Sub(grid[a])).Norm() == 0 {
+					all = append(all, tri{a, b, c})
+				}
+			}
+		}
+	}
+	var flat int64
+	ev.Parallel(len(all), 16, func(i int) {
+		t := [3]model3d.Coord3D{grid[all[i].a], grid[all[i].b], grid[all[i].c]}
+		tr := &model3d.Triangle{t[0], t[1], t[2]}
+		name := fmt.Sprintf("Triangle(%v %v %v)", t[0], t[1], t[2])
+		if t[1].Sub(t[0]).Cross(t[2].Sub(t[0])).Norm() == 0 {
+			atomic.AddInt64(&flat, 1)
+		}
+		for qi, p := range qs {
+			if qi%3 != 0 {
+				continue
+			}
+			r.Eval(1)
+			want, _ := triDist(p, t)
+			c := sdfCase{name, []float64{p.X, p.Y, p.Z}, "Triangle.Dist"}
+			if got := tr.Dist(p); !(math.Abs(got-want) <= 1e-9) {
+				r.Violation("Triangle/Dist", fmt.Sprintf("%s at %v: Dist=%.12g, distance to the triangle %.12g", name, p, got, want), c)
+				break
+			}
+			q := tr.Closest(p)
+			if fd, _ := triDist(q, t); !(fd <= 1e-9) || !(math.Abs(q.Dist(p)-want) <= 1e-9) {
+				r.Violation("Triangle/Closest", fmt.Sprintf("%s at %v: Closest=%v is %g off the triangle and %g from the query (true distance %g)", name, p, q, fd, q.Dist(p), want), c)
+				break
+			}
+		}
+	})
+	r.NontrivialAdd(int(flat))
+	r.Set("triangles_without_area", int(flat))
 }
 
 // ---- 2D ----
@@ -830,6 +875,11 @@ func main() {
 		r.LoadReplay(&c)
 		if c.API == "Segment" {
 			segmentStage(r)
+			r.Sample(c)
+			r.Finish()
+		}
+		if c.API == "Triangle.Dist" || strings.HasPrefix(c.Shape, "MeshToSDF(single triangle") {
+			checkSingleTriangles(r, 5)
 			r.Sample(c)
 			r.Finish()
 		}
